@@ -98,7 +98,8 @@ def execute(spec, policy, seed=0, step_budget=40000):
             if spec.get('handler_reconnect') and state['hreconnects'] < 1:
                 state['hreconnects'] += 1
                 api(run, c, 'connect')
-        c = run.make_connection(allowed_versions={VERSION}, handle_exception=on_exc)
+        allowed = {VERSION, 340} if spec.get('negotiate') else {VERSION}
+        c = run.make_connection(allowed_versions=allowed, handle_exception=on_exc)
         from .vnet import projection
         run.sched.observers.append(lambda e: e.__setitem__('st', projection(c)))
         if spec.get('listener_reconnect'):
@@ -176,4 +177,5 @@ def random_spec(rng, users=2, maxops=3):
         'early': rng.random() < 0.5,
         'handler_reconnect': rng.random() < 0.3,
         'raise_in_listener': rng.random() < 0.2,
+        'negotiate': rng.random() < 0.25,       # several allowed versions: connect() first queries the status (successor thread)
     }
